@@ -38,7 +38,7 @@ class Mon(object):
 BODIES = corpus.update_bodies()
 EXTRA = [['raw', 4, 1], ['raw', 3, 1], ['raw', 3, 0], ['raw', 5, 3], ['raw', 128, 5], ['raw', 1, 5], ['raw', 2, 3],
          ['rest-update'], ['rest-rr'], ['rest-bin'], ['queue-update'], ['rest-rr-unsupported'], ['rest-update-bad'],
-         ['rest-rr-malformed']]
+         ['rest-rr-malformed'], ['rest-update-late'], ['rest-bin-late']]
 
 
 def enabled(d):
@@ -76,6 +76,17 @@ def apply(d, mon, ev):
                                                            'nlri': ['10.%d.0.0/16' % (len(d.history) % 250)]})
         sim.reactor.settle(fire_due=True)
         d.history.append(ev)
+    elif k in ('rest-update-late', 'rest-bin-late'):
+        # the REST thread hands the message to the reactor (callFromThread); the reactor gets to it only after the next
+        # event - which may be the one that makes the agent close the session.  Counted when queued, so nothing is
+        # compared before that next event has been handled.
+        if k == 'rest-update-late':
+            sim.rest('POST', '/v1/peer/10.0.0.2/send/update', {'attr': {'1': 0, '2': [[2, [65001]]], '3': '10.0.0.1'},
+                                                               'nlri': ['10.%d.1.0/24' % (len(d.history) % 250)]}, settle=False)
+        else:
+            sim.rest('POST', '/v1/peer/10.0.0.2/send/bin_update', {'binary_data': ss.marked_update(9)[0].hex()}, settle=False)
+        d.history.append(ev)
+        return [], False
     elif k == 'rest-rr':
         sim.rest('POST', '/v1/peer/10.0.0.2/send/route-refresh', {'afi': 1, 'safi': 1})
         sim.reactor.settle(fire_due=True)
@@ -119,6 +130,8 @@ def apply(d, mon, ev):
 def check(d, mon, ev):
     sim = d.sim
     out = []
+    # whatever the REST thread handed to the reactor earlier is carried out before the statistic is read
+    sim.reactor.settle(fire_due=False)
     proto = sim.fsm.protocol
     if proto is None:
         return out, False
@@ -166,7 +179,8 @@ def pick(en, choice):
     weighted = []
     for ev in en:
         w = 4 if ev[0] in ('ok', 'tick', 'ka') or (ev[0] == 'open' and ev[1] == 'valid') else 1
-        if ev[0] in ('raw', 'rest-update', 'rest-rr', 'upd', 'rr', 'queue-update', 'rest-bin', 'rest-rr-unsupported', 'rest-update-bad', 'rest-rr-malformed'):
+        if ev[0] in ('raw', 'rest-update', 'rest-rr', 'upd', 'rr', 'queue-update', 'rest-bin', 'rest-rr-unsupported', 'rest-update-bad', 'rest-rr-malformed',
+                     'rest-update-late', 'rest-bin-late'):
             w = 2
         if ev[0] == 'stop':
             w = 1
